@@ -202,6 +202,22 @@ Theorem C15_refuted_proxy_token :
 Proof. exact refuted_proxy_token. Qed.
 Print Assumptions C15_refuted_proxy_token.
 
+(** Several documents through one entry point (the pages an HTTPDatasetSource reads, the pages of a
+    proxy dataset): with a fresh parser per document, reading the sequence IS mapping the
+    single-document parser over it - every document is parsed against its own context only.  A
+    parser object kept across documents leaks bindings (a page using a prefix it does not declare
+    is accepted). *)
+Theorem C15_documents_independent : forall v pages,
+  read_pages false v [] pages
+  = map (fun p => fst (parse_stream v (S (List.length (fst p))) (snd p) (fst p))) pages.
+Proof. exact read_pages_fresh. Qed.
+Print Assumptions C15_documents_independent.
+Theorem C15_refuted_parser_reuse :
+  read_pages false fixed [] [(w_page1, true); (w_page2, true)] = [([w_ent "1"], OOk); ([], OErr)]
+  /\ read_pages true fixed [] [(w_page1, true); (w_page2, true)] = [([w_ent "1"], OOk); ([w_ent "2"], OOk)].
+Proof. exact refuted_parser_reuse. Qed.
+Print Assumptions C15_refuted_parser_reuse.
+
 (** The namespace table behind the identifiers: insert-then-persist keeps persisted = in-memory over
     ALL sequences of assertions and restarts, so a restart changes nothing and a prefix, once
     assigned, denotes the same expansion for ever - what the hub wrote before a restart parses back
@@ -228,7 +244,11 @@ Print Assumptions C15_refuted_persist_before_insert.
 Theorem C15_agree_implies_spec : forall c, agree fixed true c = true -> spec_ok c = true.
 Proof. exact agree_fixed_spec. Qed.
 Print Assumptions C15_agree_implies_spec.
-Theorem C15_spec_excludes_panic : forall c, spec_ok c = true -> o_outcome c <> 2%N.
+Theorem C15_spec_excludes_panic : forall c, spec_ok c = true ->
+  match c_mode c with
+  | MSource => forallb (fun p => negb (N.eqb (po_outcome p) 2)) (c_pages c) = true
+  | _ => o_outcome c <> 2%N
+  end.
 Proof. exact spec_ok_no_panic. Qed.
 Print Assumptions C15_spec_excludes_panic.
 
